@@ -38,6 +38,15 @@ def build_demo(wt, demo, exe):
 
 def run_demo(wt, demo, exe):
     if demo.endswith(".sh"):
+        import re, shutil as _sh
+        # scripts written by the sub-agents sometimes hard-code their own worktree: point them at ours
+        tmpd = tempfile.mkdtemp(prefix="demo-")
+        for f in glob.glob(os.path.join(os.path.dirname(demo), os.path.basename(demo).split("_")[0] + "_demo.*")):
+            _sh.copy(f, tmpd)
+        demo2 = os.path.join(tmpd, os.path.basename(demo))
+        txt = re.sub(r"/tmp/mut2?-C\d\d", wt, open(demo2).read())
+        open(demo2, "w").write(txt)
+        demo = demo2
         p = sh(["bash", demo, wt], cwd=wt, timeout=600, env=dict(os.environ, TREE=wt, WT=wt, WORKTREE=wt, SKINNY_ROOT=wt, ROOT=wt, SRC=wt))
     else:
         b = build_demo(wt, demo, exe)
